@@ -37,6 +37,12 @@ M = [
  ("C12__compact_s_zero_accepted", "secec/s11n.go", "\tif err != nil || s.IsZero() != 0 {\n\t\treturn nil, nil, errInvalidScalar\n\t}\n\n\treturn r, s, nil\n}\n\n// BuildCompactSignature", "\tif err != nil {\n\t\treturn nil, nil, errInvalidScalar\n\t}\n\n\treturn r, s, nil\n}\n\n// BuildCompactSignature"),
  ("C12__scalar_33_bytes", "secec/s11n.go", "if sLen > secp256k1.ScalarSize || sLen == 0 {", "if sLen > secp256k1.ScalarSize+1 || sLen == 0 {"),
  ("C12__spki_wrong_curve_oid_accepted", "secec/s11n.go", "\tif !oidCurve.Equal(oidSecp256k1) {\n\t\treturn nil, errInvalidAsn1Curve\n\t}\n", ""),
+ ("C04__ladder_offset_15", "point_mul_glv.go", "\tconst off = 16\n\tk1Bytes, k2Bytes := k1.Bytes(), k2.Bytes()\n\tk1Bytes, k2Bytes = k1Bytes[off:], k2Bytes[off:]\n\n\tfor i := 0; i < ScalarSize-off; i++ {\n\t\tif i != 0 {\n\t\t\tv.doubleComplete(v)\n\t\t\tv.doubleComplete(v)\n\t\t\tv.doubleComplete(v)\n\t\t\tv.doubleComplete(v)\n\t\t}\n\n\t\tbK1, bK2 := k1Bytes[i], k2Bytes[i]\n\n\t\tpTbl.SelectAndAdd(", "\tconst off = 17\n\tk1Bytes, k2Bytes := k1.Bytes(), k2.Bytes()\n\tk1Bytes, k2Bytes = k1Bytes[off:], k2Bytes[off:]\n\n\tfor i := 0; i < ScalarSize-off; i++ {\n\t\tif i != 0 {\n\t\t\tv.doubleComplete(v)\n\t\t\tv.doubleComplete(v)\n\t\t\tv.doubleComplete(v)\n\t\t\tv.doubleComplete(v)\n\t\t}\n\n\t\tbK1, bK2 := k1Bytes[i], k2Bytes[i]\n\n\t\tpTbl.SelectAndAdd("),
+ ("C04__rounding_bit_dropped", "point_mul_glv.go", "shouldAdd := (c5 >> 63) & 1", "shouldAdd := (c5 >> 63) & 0"),
+ ("C04__split_wrong_constant", "point_mul_glv.go", "k2 := NewScalar().Multiply(c1, scNegB1)", "k2 := NewScalar().Multiply(c1, scNegB2)"),
+ ("C04__table_odd_entry", "point_mul_table.go", "tbl[i+1].addComplete(&tbl[i], p)", "tbl[i+1].addComplete(&tbl[i], &tbl[0])\n\t\ttbl[i+1].addComplete(&tbl[i+1], &tbl[i/2])\n\t\ttbl[i+1].addComplete(&tbl[i], p)\n\t\tif i == 13 {\n\t\t\ttbl[i+1].doubleComplete(&tbl[6])\n\t\t\ttbl[i+1].addComplete(&tbl[i+1], &tbl[0])\n\t\t}"),
+ ("C04__vartime_negate_only_scalar", "point_mul_glv.go", "\tif k2.IsGreaterThanHalfN() == 1 {\n\t\tk2.Negate(k2)\n\t\tpeePrime.Negate(peePrime)\n\t}", "\tif k2.IsGreaterThanHalfN() == 1 {\n\t\tk2.Negate(k2)\n\t\tpeePrime.Negate(pee)\n\t}"),
+ ("C04__lookup_off_by_one", "point_mul_table_ref.go", "out.uncheckedConditionalSelect(out, &tbl[i-1], helpers.Uint64Equal(idx, i))\n\t}\n}\n\nfunc lookupAffinePoint", "out.uncheckedConditionalSelect(out, &tbl[i-1], helpers.Uint64Equal(idx, i|8))\n\t}\n}\n\nfunc lookupAffinePoint"),
  # harmless refactorings: must stay green
  ("pass__C01__rename_local", "internal/field/field.go", "\tl := helpers.BytesToSaturated(src)\n\n\tdidReduce := reduceSaturated(&l, &l)\n\tfe.uncheckedSetSaturated(&l)\n\n\treturn fe, didReduce", "\tlimbs := helpers.BytesToSaturated(src)\n\n\twasReduced := reduceSaturated(&limbs, &limbs)\n\tfe.uncheckedSetSaturated(&limbs)\n\n\treturn fe, wasReduced"),
  ("pass__C03__commuted_add", "point_projective.go", "\t// t4 := t0 + t1 ; t3 := t3 - t4 ; t4 := Y1 + Z1 ;\n\tt4.Add(t0, t1)\n\tt3.Subtract(t3, t4)\n\tt4.Add(y1, z1)\n\n\t// X3 := Y2 + Z2", "\t// t4 := t0 + t1 ; t3 := t3 - t4 ; t4 := Y1 + Z1 ;\n\tt4.Add(t1, t0)\n\tt3.Subtract(t3, t4)\n\tt4.Add(z1, y1)\n\n\t// X3 := Y2 + Z2"),
